@@ -96,9 +96,9 @@ CHECKS.update({
 
 CHECKS.update({
     "C17": dict(
-        technique="Coq proof (well-formedness checker sound; priority order; TALES and repeat-variable laws; compiler = serialiser on TAL-free streams) + translation validation (real compiled programs checked by the Coq wf_program on every run) + compile/VM/evaluate correspondence + independent reference evaluator (PARTIAL: full compiler correctness not proved)",
-        text="Theorems: the boolean program checker wf_program is sound (balanced nested scopes, commands in TAL priority order, every jump symbol is the end of the owning element, macros/slots are single elements); the compiler's opcode sort is a sorted permutation; TALES alternation/not/exists/nocall laws; repeat-variable arithmetic incl. letter bijectivity for every position and roman numerals for n < 3999 (finite sweep, bound stated). Compiler => well-formed and compiler correctness are proved for the TAL-free fragment only (_partial, full statements kept visible). Every compiled program of every generated template (600 quick / 10 000 thorough) is written as a Gallina literal and checked by wf_program inside Coq; the compile model reproduces the real compiler on recorded html.parser event streams; the abstract VM follows the real interpreter's recorded control flow; an independent tree-walking evaluator written from the TAL 1.4 order of operations is compared with real expand output.",
-        note="PARTIAL: C17_compiler_correct and compile=>wf beyond the TAL-free fragment are checked per program (translation validation), not proved for all templates. Trusts: Coq kernel; html.parser (event streams taken as given); Python eval as an oracle; value universe restricted to str/num/seq/map/None/callable.",
+        technique="Coq proof (well-formedness checker sound; priority order; TALES and repeat-variable laws; compiler = serialiser on TAL-free streams; C17_compiler_correct: compile+interpret = tree-walking specification of the source document for every METAL-free template) + translation validation (real compiled programs checked by the Coq wf_program on every run) + compile/VM/evaluate correspondence + independent reference evaluator (PARTIAL: METAL not in the proved specification)",
+        text="Theorems: the boolean program checker wf_program is sound (balanced nested scopes, commands in TAL priority order, every jump symbol is the end of the owning element, macros/slots are single elements); the compiler's opcode sort is a sorted permutation; TALES alternation/not/exists/nocall laws; repeat-variable arithmetic incl. letter bijectivity for every position and roman numerals for n < 3999 (finite sweep, bound stated). Compiler => well-formed (C17_wf_program) is proved for every accepted event stream, TAL and METAL; compiler correctness (C17_compiler_correct: interpreter output, Context operations and restored stacks equal the tree-walking specification of the SOURCE document, for every environment and evaluator) is proved for every well-nested template without metal: statements; METAL stays _partial (full statements kept visible). Every compiled program of every generated template (600 quick / 10 000 thorough) is written as a Gallina literal and checked by wf_program inside Coq; the compile model reproduces the real compiler on recorded html.parser event streams; the abstract VM follows the real interpreter's recorded control flow; an independent tree-walking evaluator written from the TAL 1.4 order of operations is compared with real expand output.",
+        note="PARTIAL: macro expansion (METAL), xmlns prefix re-declaration and not-well-nested documents are outside C17_compiler_correct and are checked per program (translation validation, trace and reference-evaluator correspondence). Trusts: Coq kernel; html.parser (event streams taken as given); Python eval as an oracle; value universe restricted to str/num/seq/map/None/callable.",
         ref="6/C17, 12"),
     "C18": dict(
         technique="Coq proof (scope/context discipline of the VM for every well-formed program, escaping, python gate, pass-through) + the same translation validation as C17 + skeleton / canary / snapshot / double-expansion oracles",
